@@ -219,7 +219,7 @@ EXCLUDE = {"same_scope_nested_name_clash"}
 
 def scoped_specs(st):
     gname = st.sampled_from(SC_GLOBALS * 2 + [SC_FREE])
-    nname = st.sampled_from(SC_GLOBALS + [SC_FREE] + SC_PRIVATE)
+    nname = st.sampled_from(SC_GLOBALS * 2 + [SC_FREE] + SC_PRIVATE)
     nested = st.fixed_dictionaries({
         "name": nname, "rec": st.booleans(), "cap": st.sampled_from([False, False, True]),
         "calls": st.sampled_from(SC_GLOBALS * 2 + [None])})
@@ -423,6 +423,21 @@ def canonical(pkg):
     return hashlib.sha256(_TMP.sub(rep, s).encode()).hexdigest()
 
 
+def func_order(pkg):
+    """names of the function definitions / declarations of the module in child order (digits dropped);
+    only for readable details - the comparison is on the canonical hash"""
+    try:
+        names = []
+        for h in pkg.modules:
+            for nd in h.children(h.module_root):
+                nm = getattr(h[nd].op, "f_name", None)
+                if nm is not None:
+                    names.append(str(nm).rsplit(".", 1)[-1])
+        return ",".join(names)[:300]
+    except BaseException as e:  # noqa: BLE001
+        return f"<{type(e).__name__}>"
+
+
 # ----------------------------------------------------------------------------- sessions
 def run_history(pool, history):
     """execute the steps in THIS interpreter (called in a forked child whose parent has imported
@@ -454,9 +469,11 @@ def run_history(pool, history):
                     d.check()
                     out.append(["ok", "checked"])
                 elif op == "compile_function":
-                    out.append(["ok", canonical(d.compile_function())])
+                    pkg = d.compile_function()
+                    out.append(["ok", canonical(pkg), func_order(pkg)])
                 elif op == "compile":
-                    out.append(["ok", canonical(d.compile())])
+                    pkg = d.compile()
+                    out.append(["ok", canonical(pkg), func_order(pkg)])
                 elif op == "emulate":
                     r = d.emulator(n_qubits=3).with_seed(1).run()
                     out.append(["ok", json.dumps([[t, str(v)] for t, v in r.results[0].entries])])
@@ -556,7 +573,7 @@ def judge_history(pool, history, refs, scoped=None):
         ref = refs.get((step[0], step[1]))
         if ref is None:
             continue
-        if out != ref:
+        if out[:2] != ref[:2]:   # (a third element is a rendering for the detail text only)
             failed_before = [h for h, o in zip(history[:i], got[:i]) if o[0] != "ok"]
             kind = f"{ref[0]}->{out[0]}"
             cause = "after_failure" if failed_before else ("repeat" if step in history[:i] else "after_success")
@@ -692,6 +709,9 @@ def worker(ctx):
         *([st.just(["emulate", "main"])] if ctx.params.get("emulate") else []),
     )
 
+    scoped_ix = scoped_index(scoped)
+    related = [[a, b] for a in sc_defs for b in sc_defs if a != b and scoped_leak_class(scoped, [a], b)]
+
     @st.composite
     def histories(draw):
         h = draw(st.lists(step, min_size=3, max_size=ctx.params["steps"]))
@@ -708,13 +728,20 @@ def worker(ctx):
             o1, o2 = draw(st.permutations(OPS))[:2]
             i = draw(st.integers(0, len(h)))
             h[i:i] = [[o1, d], [o2, d]]
-        # definitions of the scoped section (local Python scopes, nested functions) in between
+        # definitions of the scoped section (local Python scopes, nested functions) in between ...
         for _ in range(draw(st.integers(0, 4))):
             h.insert(draw(st.integers(0, len(h))), [draw(st.sampled_from(OPS)), draw(st.sampled_from(sc_defs))])
+        # ... and two of them that are related by a bare name (one holds a recursive nested function
+        # called N, the other one uses a global called N), in this order, anywhere in the history
+        if related and draw(st.booleans()):
+            d1, d2 = draw(st.sampled_from(related))
+            i = draw(st.integers(0, len(h)))
+            j = draw(st.integers(i, len(h)))
+            h.insert(j, [draw(st.sampled_from(OPS)), d2])
+            h.insert(i, [draw(st.sampled_from(OPS)), d1])
         return h
 
     found = {}
-    scoped_ix = scoped_index(scoped)
 
     def body_fn(h):
         r = judge_history(pool, h, refs, scoped)
